@@ -24,6 +24,8 @@ Import ListNotations.
 Open Scope Q_scope.
 """
 
+HEADER_MASS = HEADER.replace("Model.Samplers.", "Model.Samplers Model.HmcMass.")
+
 TOL = Fraction(1, 10 ** 9)
 
 
@@ -212,10 +214,14 @@ def record_hmc(chain, post, rng, nsteps):
     return recs
 
 
-def coq_hmc_case(rec, qp):
+def coq_hmc_case(rec, qp, mass_tol=None):
+    """mass_tol=None: `check_hmc` (Model/Samplers.v).  With a tolerance: `check_hmc_mass`
+    (Model/HmcMass.v; needs HEADER_MASS), which first checks that the factor the momenta are
+    drawn with and the inverse mass of the kinetic energy describe the same mass."""
     o, pr = rec.post, rec.pre
     obs = f"(mkHO {qlist(o['t'])} {C.cq(o['p'])} {events_coq(rec.events)} {C.cnat(o['leaps'])})"
-    return (f"(check_hmc {C.cq(TOL)} {qp} {C.cq(pr['beta'])} {pr['mass']} {C.cq(pr['eps'])} "
+    fn = "check_hmc" if mass_tol is None else f"check_hmc_mass {C.cq(mass_tol)}"
+    return (f"({fn} {C.cq(TOL)} {qp} {C.cq(pr['beta'])} {pr['mass']} {C.cq(pr['eps'])} "
             f"{C.cnat(pr['steps'])} {C.cnat(pr['max_attempts'])} {bounds_coq(pr['bounds'])} "
             f"{qlist(pr['t'])} {C.cq(pr['p'])} {qlist(rec.tape)} {obs})")
 
@@ -248,14 +254,16 @@ def coq_ens_case(rec, qp, pinned=False):
 
 
 # ------------------------------------------------------------------ running cases in Coq
-def run_code_cases(prop, name, terms, chunk=60, jobs=12):
+def run_code_cases(prop, name, terms, chunk=60, jobs=12, header=None):
     """terms: list of Coq terms of type nat (result codes).  Returns
-    (codes: list[int|None], broken: list[str])."""
+    (codes: list[int|None], broken: list[str]).  `header`: imports of the generated
+    files (default HEADER)."""
+    header = HEADER if header is None else header
     files, spans = [], []
     for i in range(0, len(terms), chunk):
         part = terms[i:i + chunk]
         body = "Definition codes : list nat :=\n " + C.clist(part, ";\n ") + "."
-        p = C.write_case_file(prop, f"{name}_{i // chunk}", HEADER, body,
+        p = C.write_case_file(prop, f"{name}_{i // chunk}", header, body,
                               ["with_code 1 codes 0", "with_code 2 codes 0", "with_code 3 codes 0"])
         files.append(p)
         spans.append((i, len(part)))
